@@ -222,15 +222,34 @@ pub fn metadata_of(cfg: &Cfg) -> Option<Metadata> {
         return None;
     }
     let mut m = Metadata::new();
-    if let Some(t) = &cfg.title {
-        m = m.with_title(t.clone());
+    // path bit 32: the chainable setters in the opposite order (title last); every setter
+    // touches its own field only
+    let title_last = (cfg.path & 32) != 0;
+    if !title_last {
+        if let Some(t) = &cfg.title {
+            m = m.with_title(t.clone());
+        }
     }
     if (cfg.path & 4) == 0 {
-        if let Some(c) = cfg.ctime {
-            m = m.with_creation_time(c);
+        if title_last {
+            if let Some(l) = &cfg.lang {
+                m = m.with_language(l.clone());
+            }
+            if let Some(c) = cfg.ctime {
+                m = m.with_creation_time(c);
+            }
+        } else {
+            if let Some(c) = cfg.ctime {
+                m = m.with_creation_time(c);
+            }
+            if let Some(l) = &cfg.lang {
+                m = m.with_language(l.clone());
+            }
         }
-        if let Some(l) = &cfg.lang {
-            m = m.with_language(l.clone());
+    }
+    if title_last {
+        if let Some(t) = &cfg.title {
+            m = m.with_title(t.clone());
         }
     }
     Some(m)
@@ -545,26 +564,41 @@ pub struct FExec {
 pub fn build_frag(c: &FragCfg) -> Result<Result<FragmentedMuxer, MuxerError>, (String, String)> {
     guard(|| {
         if c.via_builder {
-            let mut b = MuxerBuilder::new(Vec::<u8>::new()).video(
-                vcodec(c.vcodec),
-                c.width,
-                c.height,
-                30.0,
-            );
-            if let Some(x) = &c.sps {
-                b = b.with_sps(x.clone());
+            let track = |b: MuxerBuilder<Vec<u8>>, codec: u8| {
+                if (c.path & 1) != 0 {
+                    b.set_video_track(vcodec(codec), c.width, c.height, 30.0)
+                } else {
+                    b.video(vcodec(codec), c.width, c.height, 30.0)
+                }
+            };
+            let params = |mut b: MuxerBuilder<Vec<u8>>| {
+                if let Some(x) = &c.sps {
+                    b = b.with_sps(x.clone());
+                }
+                if let Some(x) = &c.pps {
+                    b = b.with_pps(x.clone());
+                }
+                if let Some(x) = &c.vps {
+                    b = b.with_vps(x.clone());
+                }
+                if let Some(x) = &c.av1_seq {
+                    b = b.with_av1_sequence_header(x.clone());
+                }
+                if let Some(x) = &c.vp9 {
+                    b = b.with_vp9_config(vp9_of(x));
+                }
+                b
+            };
+            let mut b = MuxerBuilder::new(Vec::<u8>::new());
+            if (c.path & 4) != 0 {
+                b = track(b, (c.vcodec + 1) % 4);
             }
-            if let Some(x) = &c.pps {
-                b = b.with_pps(x.clone());
-            }
-            if let Some(x) = &c.vps {
-                b = b.with_vps(x.clone());
-            }
-            if let Some(x) = &c.av1_seq {
-                b = b.with_av1_sequence_header(x.clone());
-            }
-            if let Some(x) = &c.vp9 {
-                b = b.with_vp9_config(vp9_of(x));
+            if (c.path & 2) != 0 {
+                b = params(b);
+                b = track(b, c.vcodec);
+            } else {
+                b = track(b, c.vcodec);
+                b = params(b);
             }
             if let Some(l) = &c.lang {
                 b = b.set_language(l.clone());
